@@ -62,6 +62,23 @@ func makePlan(i int, r *rand.Rand, thorough bool) csnet.Options {
 			plan.Crashes = append(plan.Crashes, c01.RandCrash(r, (victim+1)%4, h+1))
 		}
 	} else {
+		if i%4 == 3 {
+			// directed: the height needs a second round (round-0 proposals are lost), and the
+			// victim dies right after it handed an own vote/proposal of round >= 1 to the
+			// network, before it can log anything else; nothing unsynced survives
+			h := int64(1 + r.Intn(3))
+			victim := r.Intn(4)
+			plan.DropRound0At = []int64{h}
+			plan.DropP, plan.DelayP, plan.DupP = 0, 0.2, 0
+			kind := []string{"prevote", "prevote", "precommit", "proposal"}[r.Intn(4)]
+			if kind == "proposal" {
+				victim = int((h + 1) % 4) // proposer of round 1
+			}
+			plan.Crashes = append(plan.Crashes, csnet.CrashSpec{Victim: victim, AtHeight: h, OnSend: kind, MinRound: 1,
+				Point: csnet.CrashPoint{OpIndex: 0, Mode: "before", TearBytes: 0}})
+			opt.Rand = rand.New(rand.NewSource(r.Int63()))
+			return opt
+		}
 		nc := 2 + r.Intn(2)
 		victim := r.Intn(4)
 		h := int64(1 + r.Intn(2))
